@@ -124,16 +124,20 @@ PROPS["C04"] = {
 PROPS["C06"] = {
     "title": "Bounding boxes contain the curve and are tight",
     "gen_modules": ["Basis", "CurveBounds"],
+    "props_modules": ["C06", "C06Path"],
     "corr_n": (20000, 200000),
     "search_n": (10000, 200000),
     "technique": "Lean 4 theorems over ℝ (compactness + Fermat, quadratic formula) about definitions translated from bounds.rs / curve.rs / coord1.rs / bounding_box.rs on every run + bit-exact Float mirror",
     "level_text": "For every cubic (1-D, i.e. per coordinate axis; exact real arithmetic with Real.sqrt): the translated find_extremities returns only parameters in (0,1] and contains every interior "
                   "critical point (quadratic formula; the a=0 case through root3); the translated bounding_box4 contains the curve for all t in [0,1] and each face is attained by a curve point "
                   "(hence it is exactly the min/max of the curve); the derivative coefficients are the derivative; fast_bounding_box is the min/max of the control values and contains both the curve and "
-                  "the tight box; union_bounds is characterised incl. its skipping of min=max boxes. The Float instance of the same generated definitions reproduces the implementation bit for bit per axis in 1-D/2-D/3-D.",
+                  "the tight box; union_bounds is characterised incl. its skipping of min=max boxes. The Float instance of the same generated definitions reproduces the implementation bit for bit per axis in 1-D/2-D/3-D. "
+                  "Path level (Props/C06Path): path_bounding_box / path_fast_bounding_box are translated (map, reduce, origin box for a path without curves) and proved to contain every point of every curve "
+                  "of the path whose own box has positive width, for any number of curves (induction over the reduce); bit-exact against 1-D paths (the generic code at Point = f64).",
     "level_note": "Partial: the ill-conditioned quadratic formula in binary64 (leading coefficient 1e-17..1e-8) is covered by the bit-exact mirror and the search (1/2000 grid + refined extrema, tolerance 1e-9 of "
                   "the polygon size with a 16-ulp floor), not by a theorem; 2-D/3-D boxes are per-axis in exact arithmetic (the implementation shares candidates between axes, which only adds curve points); "
-                  "path boxes = union of curve boxes is checked on the real code only. " + COMMON_NOTE,
+                  "a curve that is constant in a coordinate has a min=max box there, which union_bounds skips (the code's notion of 'empty'): the path theorems say so explicitly; for 2-D paths emptiness is decided on the whole box, "
+                  "which the per-axis model does not reproduce (search only). " + COMMON_NOTE,
     "rule": "curves in 1-D/2-D/3-D of kinds random, tiny/zero derivative leading coefficient, grid-aligned, monotone/flat, loop, cusp, point; corr compares bounding_box, fast_bounding_box and the "
             "find_extremities list with the Float mirror; search checks containment, tightness, fast ⊇ tight, extremity range on the real code, and path (fast) boxes against the union of curve boxes "
             "incl. zero-length segments. Non-trivial: at least one interior extremity / not a point curve; distinct by input.",
